@@ -14,8 +14,8 @@
      so a re-initialised element never regains symbols an old next state mentions. *)
 From Coq Require Import List.
 From SM Require Import Lifecycle.
-From SM.specs Require Import C19_spec.
-From SM.proofs Require Import LifecycleProofs.
+From SM.specs Require Import C19_spec SourceFacts_spec.
+From SM.proofs Require Import LifecycleProofs SourceFacts.
 
 Theorem C19_compile_only_when_ready : forall n, compile_only_when_ready n.
 Proof. exact compile_only_when_ready_proof. Qed.
@@ -29,3 +29,13 @@ Print Assumptions C19_step_records_current.
 Theorem C19_generations_never_reused : forall n, generations_never_reused n.
 Proof. exact generations_never_reused_proof. Qed.
 Print Assumptions C19_generations_never_reused.
+
+(* the two steps of Lifecycle.v that carry the property, read off the source on every run (translator/facts.py):
+   init_vars of every element class with states resets next_states (own statement or unconditional super()),
+   and ElementWithVars.step overwrites the next state of every state name unconditionally *)
+Theorem C19_init_resets_in_source : init_resets_in_source.
+Proof. exact init_resets_in_source_proof. Qed.
+Print Assumptions C19_init_resets_in_source.
+Theorem C19_step_overwrites_in_source : step_overwrites_in_source.
+Proof. exact step_overwrites_in_source_proof. Qed.
+Print Assumptions C19_step_overwrites_in_source.
